@@ -13,6 +13,9 @@ from .tlc import read_export, run_tlc
 
 # source texts whose raw token stream is given to the model (kinds assigned by a tiny lexer below, independent of the tokenizer)
 STREAMS = ["f!(a, [b, c] d)x\n", "f!( a,b )\n", "g!()\n", "h!(a))\n", "k!(a]\n", "m!((a,b), {c: d}\n", "p!(a, )#c\nq\n", "r!(,a)\n", "s!(a\n\nb)\n"]
+# line-structured sources for the with-macro capture (INDENT / DEDENT / NEWLINE / NL / COMMENT tokens from the layout)
+WITH_STREAMS = ["w c:\n    a b\n    d\ne\n", "w c: a b\nd\n", "w c:\n  a\n    b\n  c\n\n  # k\n  d\ne f\n", "if a:\n  w c:\n    x\n  y\nz\n",
+                "w c:\n    a", "w c:\n", "w c: a", "w c:\n    a\n# t\n\nb\n", "w c:\n  a\nw d:\n  b\nc\n"]
 _LEX = re.compile(r"(?P<NAME>\w+)|(?P<OPX>!\()|(?P<OP>[()\[\]{},:])|(?P<WS>[ \t]+)|(?P<COMMENT>#[^\n]*)|(?P<NEWLINE>\n)")
 
 
@@ -29,28 +32,73 @@ def raw_tokens(src: str) -> list[dict]:
             seen_sig = False
         elif ty in ("NAME", "OP"):
             seen_sig = True
-        out.append({"ty": ty, "s": m.group(0) if ty == "OP" else "", "b": m.start(), "e": m.end()})
+        out.append({"ty": ty, "s": m.group(0) if ty == "OP" else ("n" if ty == "NEWLINE" else ""), "b": m.start(), "e": m.end()})
     out.append({"ty": "ENDMARKER", "s": "", "b": len(src), "e": len(src)})
+    return out
+
+
+def raw_tokens_lines(src: str) -> list[dict]:
+    """raw token stream of a line-structured source (spaces-only indentation): the layout tokens a Python tokenizer produces,
+    each with its line number ln; offsets b / e are columns within the line"""
+    out, stack = [], [0]
+    lines = src.split("\n")
+    if lines and lines[-1] == "":
+        lines.pop()
+        ends = ["\n"] * len(lines)
+    else:
+        ends = ["\n"] * (len(lines) - 1) + [""]
+    for ln, (text, end) in enumerate(zip(lines, ends), 1):
+        body = text.lstrip(" ")
+        col = len(text) - len(body)
+        if body == "" or body.startswith("#"):
+            if body:
+                out.append({"ty": "COMMENT", "s": "", "b": col, "e": len(text), "ln": ln})
+            if end:
+                out.append({"ty": "NL", "s": "", "b": len(text), "e": len(text) + 1, "ln": ln})
+            continue
+        if col > stack[-1]:
+            stack.append(col)
+            out.append({"ty": "INDENT", "s": "", "b": 0, "e": col, "ln": ln})
+        while col < stack[-1]:
+            stack.pop()
+            out.append({"ty": "DEDENT", "s": "", "b": col, "e": col, "ln": ln})
+        for m in _LEX.finditer(text, col):
+            ty = m.lastgroup
+            if ty in ("NEWLINE", "WS"):
+                if ty == "WS":
+                    out.append({"ty": "WS", "s": "", "b": m.start(), "e": m.end(), "ln": ln})
+                continue
+            out.append({"ty": "OP" if ty in ("OP", "OPX") else ty, "s": m.group(0) if ty in ("OP", "OPX") else "", "b": m.start(), "e": m.end(), "ln": ln})
+        # the NEWLINE of a line without terminator is the implicit one (empty text)
+        out.append({"ty": "NEWLINE", "s": "n" if end else "", "b": len(text), "e": len(text) + 1, "ln": ln})
+    last = len(lines) + 1
+    while len(stack) > 1:
+        stack.pop()
+        out.append({"ty": "DEDENT", "s": "", "b": 0, "e": 0, "ln": last})
+    out.append({"ty": "ENDMARKER", "s": "", "b": 0, "e": 0, "ln": last})
     return out
 
 
 def conformance(run: Run, maxcalls: int) -> list[dict]:
     """returns the list of mismatches (drift) and law violations observed on the real class"""
     problems = []
-    for si, src in enumerate(STREAMS):
-        raw = raw_tokens(src)
+    for si, src in enumerate(STREAMS + WITH_STREAMS):
+        lined = si >= len(STREAMS)
+        raw = raw_tokens_lines(src) if lined else [dict(t, ln=1) for t in raw_tokens(src)]
         f = os.path.join(run.dir, f"toksrc{si}.ndjson")
         cfg = ("INIT Init\nNEXT Next\nVIEW View\nINVARIANT IndexOK\nINVARIANT PushbackAtMostOne\nINVARIANT NoBlankDelivered\nINVARIANT ExhaustionIsError\n"
-               "INVARIANT CaptureIsSlice\nINVARIANT Export\nPROPERTY CacheAppendOnly\nCHECK_DEADLOCK FALSE\n")
+               "INVARIANT CaptureIsSlice\nINVARIANT WithCaptureIsBlock\nINVARIANT Export\nPROPERTY CacheAppendOnly\nPROPERTY WithFlagClearedAtDedent\nCHECK_DEADLOCK FALSE\n")
         st = run_tlc(run, "TokenSource", cfg.replace("INIT Init\nNEXT Next\n", "SPECIFICATION Spec\n"), env={"OUT": f}, name=f"toksrc{si}", expect_violation=True, workers=1,
-                     consts={"Raw": raw, "MaxCalls": maxcalls})
+                     consts={"Raw": raw, "MaxCalls": (maxcalls if not lined else max(6, maxcalls - 3)), "AllowWith": lined})
         if st["violated"]:
             problems.append({"kind": "model_law_violated", "stream": src, "law": st["violated"]})
+        if not os.path.exists(f):
+            continue
         hists = [h["hist"] for h in read_export(f)]
         os.remove(f)
         if not hists:
             continue
-        res = run_ops("toksrc", [{"src": src, "raw": raw, "histories": hists[i: i + 400]} for i in range(0, len(hists), 400)], limit=60.0, batch=1)
+        res = run_ops("toksrc", [{"src": src, "raw": raw, "lined": lined, "histories": hists[i: i + 400]} for i in range(0, len(hists), 400)], limit=60.0, batch=1)
         k = 0
         for r in res:
             for obs in r["observations"]:
@@ -61,7 +109,24 @@ def conformance(run: Run, maxcalls: int) -> list[dict]:
                     if o["err"] not in ("", "SyntaxError") or not o.get("slice_ok", True):
                         problems.append({"kind": "law_violated_by_real_class", "stream": src, "calls": [[x["op"], x["arg"]] for x in want[: j + 1]], "observed": o})
                         break
-                    keys = ("index", "n", "call", "proc", "stack", "err", "ty") + (("b", "e") if w["ty"] == "MACRO_PARAM" else ())
+                    keys = ("index", "n", "call", "proc", "with", "stack", "err", "ty") + (("b", "e") if w["ty"] == "MACRO_PARAM" and not lined else ())
+                    if w["ty"] == "MACRO_PARAM" and lined and not o["err"]:
+                        # the captured text must be exactly the source lines the model says were captured
+                        import textwrap
+
+                        src_lines = src.split("\n")
+
+                        def text_of(l):
+                            return (src_lines[l - 1] + ("\n" if l < len(src_lines) else "")) if l <= len(src_lines) else ""
+
+                        if w["oneline"]:      # not the block form: every line from the column of the token that put it in
+                            expected = "".join(text_of(l)[c:] for l, c in w["ls"])
+                        else:
+                            expected = textwrap.dedent("".join(text_of(l) for l, _c in w["ls"]))
+                        if o.get("text") != expected:
+                            problems.append({"kind": "law_violated_by_real_class", "stream": src, "calls": [[x["op"], x["arg"]] for x in want[: j + 1]],
+                                             "observed": {"captured": o.get("text")}, "model": {"lines": w["ls"], "expected": expected}})
+                            break
                     if any(o[x] != w[x] for x in keys):
                         problems.append({"kind": "drift", "stream": src, "calls": [[x["op"], x["arg"]] for x in want[: j + 1]],
                                          "observed": {x: o[x] for x in keys}, "model": {x: w[x] for x in keys}})
